@@ -243,6 +243,11 @@ pub fn replay_other(run: &'static Run, kind: &str, case: &J) -> Option<i32> {
             crate::bbchk::replay(run, case);
             Some(0)
         }
+        "eval-order" => {
+            // cheap: the whole family is repeated
+            eval_order(run);
+            Some(0)
+        }
         "nd-crash" => {
             // the whole quick tier is repeated by this (unchecked) binary: a crash ends the replay the same way
             let prop = case.get("property").and_then(|x| x.as_str()).unwrap_or("").to_string();
@@ -523,11 +528,80 @@ fn c16(run: &Run) -> i32 {
     let (a, b) = blend::run(run);
     s += a;
     t += b;
+    let (a, b) = eval_order(run);
+    s += a;
+    t += b;
     sweep::sample_states(run);
     run.require("phase_above_24", 100);
     run.require("evals", 1000);
     run.assume("pure middlegame / endgame assessments are obtained from the engine's own evaluation with the public phase field set to 24 and to 0");
     report::finish(run, s, t, "every position of the sweep families and of F-HEAVY: eval == eval of the colour-mirrored twin, no panic, outside the mate range, between the phase-24 and phase-0 evaluations; the blend itself on a lattice of (mg, eg, phase) triples; pack/unpack round trip", true)
+}
+
+/// The evaluation is a function of the position: one list of positions is evaluated front to back on one fresh
+/// thread and back to front on another; any dependence on what the thread evaluated before shows as a difference.
+/// The list puts positions whose pawns stand on the same squares in different colours next to each other
+/// (all 1- and 2-subsets of the 48 pawn squares x all colourings, two king placements, both sides to move).
+fn eval_order(run: &Run) -> (u64, u64) {
+    use crate::refchess::Pos;
+    use crate::chess::game::Game;
+    let mut list: Vec<Pos> = vec![];
+    let pawn_squares: Vec<u8> = (8u8..56).collect();
+    for (wk, bk) in [(4u8, 60u8), (0, 63)] {
+        let mut sets: Vec<Vec<u8>> = pawn_squares.iter().map(|s| vec![*s]).collect();
+        for (i, a) in pawn_squares.iter().enumerate() {
+            for b in pawn_squares.iter().skip(i + 1) {
+                sets.push(vec![*a, *b]);
+            }
+        }
+        for set in sets {
+            for colouring in 0..(1u32 << set.len()) {
+                for side in [Color::W, Color::B] {
+                    let mut p = Pos::empty();
+                    p.board[wk as usize] = Some((Color::W, Kind::K));
+                    p.board[bk as usize] = Some((Color::B, Kind::K));
+                    for (i, sq) in set.iter().enumerate() {
+                        p.board[*sq as usize] = Some((if colouring & (1 << i) != 0 { Color::B } else { Color::W }, Kind::P));
+                    }
+                    p.side = side;
+                    if p.is_legal_position() {
+                        list.push(p);
+                    }
+                }
+            }
+        }
+    }
+    // each pass builds its own game objects on its own fresh thread (nothing is shared but the reference positions)
+    let eval_all = |rev: bool| -> Vec<Result<i32, String>> {
+        let games: Vec<Game> = list.iter().map(crate::eng::to_game).collect();
+        let idx: Vec<usize> = if rev { (0..games.len()).rev().collect() } else { (0..games.len()).collect() };
+        let mut out: Vec<Result<i32, String>> = vec![Ok(0); games.len()];
+        for i in idx {
+            out[i] = crate::util::catch(|| i32::from(crate::engine::eval::eval(&games[i]).0));
+        }
+        out
+    };
+    let (fwd, bwd) = std::thread::scope(|sc| {
+        let a = sc.spawn(|| eval_all(false));
+        let b = sc.spawn(|| eval_all(true));
+        (a.join().unwrap(), b.join().unwrap())
+    });
+    let mut n = 0u64;
+    for (i, p) in list.iter().enumerate() {
+        n += 1;
+        if fwd[i] != bwd[i] {
+            let prev = if i > 0 { list[i - 1].to_fen() } else { String::new() };
+            let next = if i + 1 < list.len() { list[i + 1].to_fen() } else { String::new() };
+            run.violation(
+                "eval-depends-on-earlier-evaluations",
+                format!("eval-order|{}", p.to_fen()),
+                J::obj(vec![("kind", J::s("eval-order")), ("fen", J::s(p.to_fen())), ("evaluated_before_forward", J::s(prev.clone())), ("evaluated_before_backward", J::s(next.clone()))]),
+                format!("eval({}) = {:?} when evaluated after {prev}, {:?} when evaluated after {next} (same thread, nothing else in between)", p.to_fen(), fwd[i], bwd[i]),
+            );
+        }
+    }
+    run.family("EVAL-ORDER", "kings on e1/e8 and on a1/h8, pawns on every 1- and 2-subset of the 48 pawn squares in every colouring, both sides to move: evaluated front to back on one fresh thread and back to front on another", n, 2 * n, true, "results must agree position by position");
+    (n, 2 * n)
 }
 
 pub fn advertised_hash_min() -> usize {
